@@ -174,6 +174,8 @@ func (er *EpidemicRouting) ReportFailure(bp BundleDescriptor, sender cla.Converg
 		"sent":    sentEids,
 	}).Debug("EpidemicRouting failed to transmit to CLA")
 
+	verifPoint("epidemic.ReportFailure.read")
+
 	for i := 0; i < len(sentEids); i++ {
 		if sentEids[i] == sender.GetPeerEndpointID() {
 			sentEids = append(sentEids[:i], sentEids[i+1:]...)
